@@ -153,6 +153,14 @@ theorem without_reset (h : List Call) (cfg : Cfg) :
   rw [h1, h2]
   exact executeC_reads cfg _ _ rfl rfl
 
+/-- the stream table (the `"-"` scanner, whether Stdin was drained) and the range-pattern flag are per-run components:
+`resetCore` clears them whatever the previous run left — so `reuse_eq_fresh` and `without_reset` cover a run that ended
+with a partly read stream or in the middle of a range -/
+theorem reset_clears_streams_and_range (s : State) :
+    (resetCore s).core.perRun.dash = none ∧ (resetCore s).core.perRun.rawTaken = false ∧
+    (resetCore s).core.perRun.inRange = false ∧ (resetCore s).core.perRun.scannerOpen = false ∧
+    (resetCore s).core.perRun.rest = [] := ⟨rfl, rfl, rfl, rfl, rfl⟩
+
 /-- the regex cache of every reachable state is sound, so a hit returns what a miss would compute -/
 theorem cache_sound (h : List Call) : CacheOk (runHistory h fresh).cache :=
   runHistory_cacheOk h fresh fresh_cacheOk
@@ -175,6 +183,16 @@ example : (execute probeCfg (runHistory dirtyHistory fresh)).2.status = 0 ∧
     (execute probeCfg (runHistory dirtyHistory fresh)).1.core.perRun.nr = 0 ∧
     (execute probeCfg (runHistory dirtyHistory fresh)).1.core.vars.g = ["v", "", ""] ∧
     (execute probeCfg (resetRand (resetVars (runHistory dirtyHistory fresh)))).1.core.vars.g = ["", "", ""] := by decide
+
+/-- Non-vacuity for the stream table and the range flag: a run that reads one of three records through `"-"` and whose
+input ends inside the range leaves both behind. -/
+def streamCfg : Cfg := ⟨false, false, ["s", "x", "y"], false, none, false, false, [.getDash], [], []⟩
+def rangeCfg : Cfg := ⟨false, false, ["x", "s", "y"], false, none, false, false, [], [], []⟩
+
+example : (execute streamCfg fresh).1.core.perRun.dash = some ["x", "y"] ∧
+    (execute streamCfg fresh).1.core.perRun.rawTaken = true := by decide
+
+example : (execute rangeCfg fresh).1.core.perRun.inRange = true := by decide
 
 end Machine
 
